@@ -4,3 +4,4 @@ from .bytesnum import *  # noqa
 from .base58 import b58val, alpha  # noqa
 from . import base58  # noqa
 from . import bip143  # noqa
+from . import block  # noqa
